@@ -1,7 +1,9 @@
 package sshmux
 
 import (
+	"os"
 	"sort"
+	"strconv"
 	"strings"
 	"time"
 
@@ -16,6 +18,15 @@ const cryptoPrefix = "golang.org/x/crypto/ssh."
 
 // watchdog is the generous "when to look" delay.
 var watchdog = 45 * time.Second
+
+func init() {
+	// development aid only: a shorter look-interval never changes a verdict
+	if s := os.Getenv("VERIF_WATCHDOG_S"); s != "" {
+		if v, err := strconv.Atoi(s); err == nil && v > 0 {
+			watchdog = time.Duration(v) * time.Second
+		}
+	}
+}
 
 // countParked returns how many goroutines are parked in state `state` with a
 // frame containing sub.
